@@ -175,12 +175,12 @@ func runTaskCase(a args, tcase taskCase, idx int) {
 		st, _ := g.Node("s")
 		stageStatus = st.ReadStatus()
 		err = schedErr
-		sch.Finish()
+		lockedFinish(sch.Finish)
 	} else {
 		r := newQuietRunner()
 		r.Stdout = &so
 		err = r.Run(t)
-		r.Finish()
+		lockedFinish(r.Finish)
 	}
 	got := strings.Fields(h.ReadFile(trace))
 	depRan := false
